@@ -1539,6 +1539,10 @@ def _make_gin_wrapper(fn, fn_or_cls, name, selector, allowlist, denylist):
   signature_fn = fn_or_cls
   if inspect.isclass(fn_or_cls):
     signature_fn = _find_class_construction_fn(fn_or_cls)
+    # A constructor inherited from a `gin.configurable` base class is Gin's own
+    # `(*args, **kwargs)` wrapper; the parameters are those of what it wraps.
+    while getattr(signature_fn, '__gin_wrapper__', False):
+      signature_fn = signature_fn.__wrapped__
   signature_required_kwargs = _get_validated_required_kwargs(
       signature_fn, fn_descriptor, allowlist, denylist)
   initial_configurable_defaults = _get_default_configurable_parameter_values(
@@ -1678,6 +1682,7 @@ def _make_gin_wrapper(fn, fn_or_cls, name, selector, allowlist, denylist):
       err_str = err_str.format(name, fn_or_cls, scope_info)
       utils.augment_exception_message_and_reraise(e, err_str)
 
+  gin_wrapper.__gin_wrapper__ = True
   return gin_wrapper
 
 
